@@ -1378,7 +1378,18 @@ func simC17Store(c *Ctx) {
 			codec := "msgpack"
 			var prefix []byte
 			nestT := tDynamic
-			switch c.G(8) {
+			switch c.G(10) {
+			case 8, 9:
+				// ... a type description that is nothing but nesting, on its own or as the type half of a
+				// MessagePack dynamic-value wrapper
+				codec, unit, tail, closeUnit = "jsontype", []byte(`["list",`), []byte(`"string"`), []byte("]")
+				if c.G(2) == 0 {
+					desc := append(append(bytes.Repeat(unit, levels), tail...), bytes.Repeat(closeUnit, levels)...)
+					codec, unit, closeUnit = "msgpack", nil, nil
+					prefix = append([]byte{0x92, 0xc6, byte(len(desc) >> 24), byte(len(desc) >> 16), byte(len(desc) >> 8), byte(len(desc))}, desc...)
+					tail = []byte{0xc0}
+					levels = 0
+				}
 			case 6, 7:
 				// ... under a key the reading type does not declare (what a reader does with members it does not
 				// want - skipping them included - is paid per level too)
